@@ -37,6 +37,40 @@ ADDED = {
     'C18': 'Also: the dotted name of the buffer is derived without the ancestor directories.',
     'C20': 'Also: get_module_info contract shared with C12 ("this path is what import resolution uses").',
 }
+# round 3: further functions under contract (A.4, A.7)
+ADDED3 = {
+    'C01': '_complete_getattr return-statement loop proved free of index/attribute errors for return statements of any '
+           'shape (stated parso shape preconditions); create_context.from_scope_node handles every scope kind the '
+           'enclosing-scope walk can return (async comprehensions included).',
+    'C03': 'is_big_annoying_library: only the top-level package name switches flow analysis off.',
+    'C04': 'memoised-generator round (shared with C15): every consumer of a cached class hierarchy sees all elements.',
+    'C05': 'FolderIO.walk pruning (shared with C19, all subsets of <= 3 sub-folders): the candidate scan loses no folder.',
+    'C07': 'Structural: Script reads the file behind `path` as bytes (no newline translation before the refactoring).',
+    'C09': '_load_python_module: parse through the cache with the file as source; tree and code lines of one cache entry.',
+    'C10': '_prepare_infer_import (imported name split off the from-part, also when it is empty), infer_import (attribute '
+           'before sub-module), import_module against a _gcd_import spec function (which finder lookup, with which '
+           'arguments; kind of module loaded), transform_path_to_dotted (a shortest candidate, package flag), '
+           '_find_module_py33 (interpreter-wide fallback only without a search path), ModuleMixin.star_imports closure '
+           '(direct and transitive, unbounded).',
+    'C12': 'Structural: the helper gets exactly the caller-configured environment variables; os.environ is read-only.',
+    'C14': 'Shared with C08: global-state inventory and the per-call signature cache key (nothing a disturbed query '
+           'remembered outlives its Script).',
+    'C15': '_memoize_default wrapper (default stored before the function is entered; hit without entering; no stale default '
+           'after an exception), _limit_value_infers wrapper (per-node cap), memoised-generator round (sentinel in place '
+           'while the generator runs); guarded cores only reachable through their guard (inventory).',
+    'C16': 'FolderIO.walk pruning keeps the kept folders in order (shared with C19): project scan order = listing order.',
+    'C17': '_load_python_module (shared with C09); tree names spelled and positioned as their token (replayed on non-NFKC '
+           'identifiers); Script reads its file as bytes.',
+    'C18': 'create_instance_context: the context of a self.x definition is the method context refined to the innermost '
+           'scope around the assignment (1-3 scopes between assignment and class body).',
+    'C19': 'FolderIO.walk pruning: exactly the entries of removed folders are deleted from os.walk\'s list, others kept '
+           'in order (all subsets of <= 3 sub-folders; replayed on a real directory).',
+    'C20': 'Importer._sys_path_with_modifications: the memoised effective path is never mutated in place (ownership '
+           'frame obligation); detected sys.path edits are appended for the lookup only.',
+}
+LIBRARY_NOTE = (' A contract whose function can no longer be brought into the subset is not silently undecided: its '
+                'executable form is evaluated on the real function over its witness library, a failing input is a '
+                'VIOLATION with replay (DESIGN.md A.2).')
 STANDIN_NOTE = (' Bounded stand-in on the real code (standins/%s.py; labelled bounded in the evidence, never counted as '
                 'proved; scope in DESIGN.md A.4). Solver verdicts are guarded (relevance-filtered axioms, hypotheses '
                 'guard with cvc5, covers; thorough tier cross-checks every unsat with z3 4.8.12 and cvc5): DESIGN.md A.6.')
@@ -44,6 +78,9 @@ for pid in sorted(CLAIMED):
     text, note, technique, ref = CLAIMED[pid]
     if pid in ADDED:
         text = text + ' ' + ADDED[pid]
+    if pid in ADDED3:
+        text = text + ' Round 3: ' + ADDED3[pid]
+    note = note + LIBRARY_NOTE
     if os.path.exists(os.path.join(HERE, 'standins', pid.lower() + '.py')):
         note = note + STANDIN_NOTE % pid.lower()
         if 'stand-in' not in technique:
